@@ -17,6 +17,16 @@ def run(chk, prog, tier):
     nreg = TR.t4_registers(chk, prog)
     CR.t5_arch_constants(chk, prog)
     CR.t6_modrm_shape(chk, prog)
+    from valib import succ as SUCC
+    SUCC.succ_rule(chk, tab, prog, only={("name", "push"), ("name", "xchg"), ("type", "DATA_TRANSFER"), ("type", "SHIFT"),
+                                         ("type", "OPERATION"), ("type", "PAD_ALWAYS")})
+    SUCC.sibling_guard_rule(chk, prog)
+    from valib import pipeline as PL
+    from valib import cover as CV
+    roles = PL.Roles(prog)
+    CV.cover_rule(chk, prog, roles)
+    from valib import chunk as CH
+    CH.emitter_shape_rules(chk, prog, roles, want=("DEST", "ADV"), rule="ADV")
     ngp = sum(1 for r in tab.rows[3:-1] if gp(r))
     chk.floor("general-purpose rows", ngp, 200)
     chk.floor("general-purpose rows matched against the reference", matched, 200)
@@ -27,7 +37,8 @@ def run(chk, prog, tier):
         "and compared with a hand-written x86 reference (prefix, map, opcode under its width scheme, /digit, encoding "
         "class, imm8 and +rd markers), with its sibling rows, with the lookup code's structural needs (contiguity, "
         "letter runs, terminator), REG_TABLE with the architectural register names/numbers, the REX/ModRM constants "
-        "and the shape of the ModRM composition. NOT decided: which REX/0x66/width offset the encoder computes for a "
-        "given register tuple (runtime value logic) and byte count = offset advance.")
+        "and the shape of the ModRM composition. Byte count = offset advance is decided structurally: every encoder function "
+        "returns exactly the number of leading bytes it wrote (COVER) and the emitters advance the position by that value (ADV). "
+        "NOT decided: which REX/0x66/width offset the encoder computes for a given register tuple (runtime value logic).")
     chk.assumptions += ["ref/x86_reference.json transcribes the Intel SDM correctly",
                         "the encoder applies the width schemes (w-bit, imm-group, imul3, shrd-imm, mov-imm) as src/README.md documents"]
